@@ -528,7 +528,7 @@ func GenStatic(t *sim.T, c StaticCfg) *StaticModel {
 			if b >= a {
 				b++
 			}
-			rows = append(rows, []string{m.StopIDs[a], m.StopIDs[b], fmt.Sprint(t.Choose(4)), fmt.Sprint(t.Choose(600))})
+			rows = append(rows, []string{m.StopIDs[a], m.StopIDs[b], fmt.Sprint(t.Choose(6)), fmt.Sprint(t.Choose(600))}) // transfer_type 0-5 (4, 5: in-seat transfers of the current GTFS reference)
 		}
 		cols := []colSpec{{"from_stop_id", true}, {"to_stop_id", true}, {"transfer_type", false}, {"min_transfer_time", false}}
 		f.Tables = append(f.Tables, finishTable(t, c, "transfers.txt", cols, rows))
@@ -742,7 +742,14 @@ func GiantDistinctCfg(t *sim.T) StaticCfg {
 	return c
 }
 
+// oddZones: agency_timezone values that are not IANA names but occur in the wild (fixed offsets in several
+// spellings, abbreviations, unknown names, blank). The library falls back to UTC for what it cannot load.
+var oddZones = []string{"UTC+5:30", "GMT-330", "UTC+5", "UTC+05", "UTC+0530", "UTC+05:30", "UTC-1:00", "GMT+2", "PST", "CEST", "Mars/Olympus_Mons", "+01:00", "Z", "utc", "America/new_york", "../UTC"}
+
 func agencyZone(t *sim.T, c StaticCfg) string {
+	if t.Chance(1, 10) {
+		return oddZones[t.Choose(len(oddZones))]
+	}
 	if c.WideZones {
 		return wideZones[t.Choose(len(wideZones))]
 	}
